@@ -23,6 +23,11 @@ type tcpProxy struct {
 	conns   map[net.Conn]bool
 	cut     bool
 	Carried int64
+	// remote->local bytes are kept back until holdUntil and then released in one write (stall.go)
+	holdUntil time.Time
+	lose      bool
+	Flushes   int
+	Dropped   int
 }
 
 func newProxy(target string) (*tcpProxy, error) {
@@ -69,7 +74,7 @@ func (p *tcpProxy) serve() {
 			_ = src.Close()
 		}
 		go pipe(d, c)
-		go pipe(c, d)
+		go p.pipeHeld(c, d) // from the remote node towards the submitting node
 	}
 }
 
@@ -149,6 +154,12 @@ func runRemote(c *Ctx, sh *shared, dir string) {
 			runRemoteScenario(c, sh, filepath.Join(dir, scs[i].Name), scs[i])
 		}(i)
 	}
+	// the header line of a results stream against every chunking: a link that holds the remote
+	// node's bytes back and releases them in one piece, and a scripted remote that cuts header and
+	// output as it likes
+	wg.Add(2)
+	go func() { defer wg.Done(); runStalls(c, sh, filepath.Join(dir, "stalls")) }()
+	go func() { defer wg.Done(); runStandin(c, sh, filepath.Join(dir, "standin")) }()
 	wg.Wait()
 }
 
